@@ -23,7 +23,7 @@ def one(sid, prop, tier, vjobs):
         r = subprocess.run([os.path.join(V, "check"), prop, "--tier", tier], capture_output=True, text=True, env=env, cwd=V)
         hits = []
         for line in r.stdout.splitlines():
-            m = re.match(r"\s*\[%s\] (\S+)\s+(REFUTED|KNOWN-FINDING)" % prop, line)
+            m = re.match(r"\s*\[%s\] (\S+)\s+(REFUTED)" % prop, line)     # a KNOWN-FINDING also shows on the unchanged tree: not a detection
             if m:
                 hits.append(m.group(1))
         tail = [l for l in r.stdout.splitlines() if l.startswith("[%s] tier=" % prop)]
